@@ -6,6 +6,7 @@ import (
 	"fmt"
 	"io"
 	"net"
+	"os"
 	"sync"
 	"time"
 
@@ -61,6 +62,30 @@ func sweepCase(c *h.Case, sc sweepCfg) {
 	tag := "sw" + newMarker(c.Rng)[:10]
 	addr := fmt.Sprintf("127.0.0.1:%d", ps.Bind)
 
+	// positive control: the same login through TLS must be interpreted, otherwise the silence of the sweep means nothing
+	// (done first: frps reads the first byte of every new connection inside its accept loop, so the half-dead
+	// kcp sessions a sweep leaves behind can stall later logins for a while)
+	t := cliTLS{Enable: true}
+	if sc.SrvMode == "ca" {
+		t.Cert = "good"
+	}
+	cc, _, _, err := h.LoadClientConfig(prop, clientCommonTOML(ps.Bind, ps.Token, tag+"-ctl", sc.Protocol, sc.Mux, false, 0, t, true))
+	if err == nil {
+		p, derr := h.DialPeer(h.PeerOpts{Common: cc, Token: ps.Token, User: tag + "-ctl"})
+		ok := p != nil && p.LoggedIn()
+		c.Ev("positive-control", "ok", ok, "err", fmt.Sprint(derr))
+		if !ok && os.Getenv("C05_TIMING") != "" {
+			fmt.Fprintf(os.Stderr, "sweep %+v positive control failed: %v\n", sc, derr)
+		}
+		if p != nil {
+			p.Close()
+		}
+		if !ok {
+			run.Inconclusive("sweep: positive control (TLS login) failed")
+			return
+		}
+		run.Count("sweep_positive_controls", 1)
+	}
 	attempts := make([]*sweepAttempt, 0, 257)
 	for b := -1; b < 256; b++ {
 		attempts = append(attempts, &sweepAttempt{first: b, user: fmt.Sprintf("%s-%03d", tag, b+1)})
@@ -113,24 +138,6 @@ func sweepCase(c *h.Case, sc sweepCfg) {
 		if a.conn != nil {
 			a.conn.Close()
 		}
-	}
-	// positive control: the same login through TLS must be interpreted, otherwise the silence above means nothing
-	t := cliTLS{Enable: true}
-	if sc.SrvMode == "ca" {
-		t.Cert = "good"
-	}
-	cc, _, _, err := h.LoadClientConfig(prop, clientCommonTOML(ps.Bind, ps.Token, tag+"-ctl", sc.Protocol, sc.Mux, false, 0, t, true))
-	if err == nil {
-		p, _ := h.DialPeer(h.PeerOpts{Common: cc, Token: ps.Token, User: tag + "-ctl"})
-		ok := p != nil && p.LoggedIn()
-		if p != nil {
-			p.Close()
-		}
-		if !ok {
-			run.Inconclusive("sweep: positive control (TLS login) failed")
-			return
-		}
-		run.Count("sweep_positive_controls", 1)
 	}
 	run.Sample(map[string]any{"kind": "first-byte sweep", "cfg": sc, "attempts": len(attempts)})
 }
